@@ -151,6 +151,35 @@ class Index(PyModel):
     def __iter__(self):
         return iter([t if self.multi else t[0] for t in self.tuples])
 
+    def __getitem__(self, k):
+        """positional: an int gives the label, a slice / integer array / boolean mask gives an Index of the same kind (labels keep their types)"""
+        n = len(self.tuples)
+        if isinstance(k, (int, Rat)) and not isinstance(k, bool):
+            i = int(rat(k).const())
+            if not -n <= i < n:
+                raise PyRaise("IndexError", None, f"index {i} is out of bounds for axis 0 with size {n}")
+            t = self.tuples[i]
+            return t if self.multi else t[0]
+        if isinstance(k, slice):
+            return Index(self.tuples[k], self.names, False, self.multi)
+        if isinstance(k, SArr):
+            if k.ndim != 1:
+                raise AnalysisAbort("Index[...] with a key that is not 1-dimensional")
+            if k.dtype == "bool":
+                if k.size != n:
+                    raise PyRaise("IndexError", None, "boolean index did not match indexed array")
+                pos = [i for i, b in enumerate(k.data) if b != 0]
+            else:
+                pos = [int(rat(x).const()) for x in k.data]
+        elif isinstance(k, (list, tuple)) and all(isinstance(x, int) and not isinstance(x, bool) for x in k):
+            pos = list(k)
+        else:
+            raise AnalysisAbort(f"Index[...] with a key of type {type(k).__name__}")
+        for i in pos:
+            if not -n <= i < n:
+                raise PyRaise("IndexError", None, f"index {i} is out of bounds for axis 0 with size {n}")
+        return Index([self.tuples[i] for i in pos], self.names, False, self.multi)
+
     def tolist(self):
         return list(iter(self))
 
@@ -611,7 +640,7 @@ class Frame(PyModel):
             raise PyRaise("ValueError", None, "max() iterable argument is empty")
         ii = [self._ci(c) for c in icols]
         ci, vi = self._ci(columns), self._ci(values)
-        col_labels = sorted_labels(unique([r[ci] for r in self.rows]))
+        col_labels = sorted(unique([r[ci] for r in self.rows]), key=sort_key)     # pandas safe_sort: numbers before text
         keys = unique([tuple(r[i] for i in ii) for r in self.rows]) if False else []
         seen = []
         for r in self.rows:
@@ -849,7 +878,7 @@ def install(it):
     it.hooks.update({
         "pandas.MultiIndex": mi, "pandas.DataFrame": dft, "pandas.concat": concat, "numpy.setdiff1d": setdiff1d, "numpy.setxor1d": setxor1d,
         "pandas.Series": lambda data=None, **k: Series(list(data)),
-        "pandas.Index": lambda data, name=None, **k: Index([(x,) for x in (data.data if isinstance(data, SArr) else data)], [name]),
+        "pandas.Index": lambda data, name=None, **k: (_only(k, (), 'pd.Index'), Index([(x,) for x in (data.data if isinstance(data, SArr) else data)], [name]))[1],
         "pandas.isna": lambda x: is_nan(x), "pandas.notna": lambda x: not is_nan(x),
     })
     return mi, dft
